@@ -16,7 +16,7 @@ Mod(a, b) == a - b * (a \div b)
 
 (* ------------------------------------------------------------------ parser *)
 IsDigit(c) == c >= 48 /\ c <= 57
-IsFlag(c) == c \in {45, 48, 43, 32, 35}                 \* - 0 + space #
+IsFlag(c) == c \in {45, 48, 43, 32, 35, 39, 73}         \* - 0 + space #  and the two flags glibc adds: ' (grouping) and I (locale digits)
 At(f, i) == IF i >= 1 /\ i <= Len(f) THEN f[i] ELSE 0
 
 RECURSIVE SkipFlags(_, _)
@@ -35,6 +35,8 @@ LenMod(f, i) ==
   ELSE IF c = 122 THEN <<"z", i + 1>>
   ELSE IF c = 116 THEN <<"t", i + 1>>
   ELSE IF c = 76 THEN <<"L", i + 1>>
+  ELSE IF c = 90 THEN <<"Z", i + 1>>       \* glibc: the old spelling of z
+  ELSE IF c = 113 THEN <<"q", i + 1>>      \* glibc / BSD: quad = ll
   ELSE <<"", i>>
 
 (* one printf directive starting at the '%' at index i *)
@@ -69,11 +71,14 @@ HasNConv(f) == \E i \in 1..Len(Parse(f)) : IsNConv(Parse(f)[i])
 (* scanf: %[*][width][length]conv, with the scan set %[...] *)
 RECURSIVE SkipSet(_, _)
 SkipSet(f, i) == IF i > Len(f) THEN i ELSE IF f[i] = 93 THEN i + 1 ELSE SkipSet(f, i + 1)
+RECURSIVE SkipScanFlags(_, _)
+SkipScanFlags(f, i) == IF At(f, i) \in {42, 39, 73} THEN SkipScanFlags(f, i + 1) ELSE i       \* '*' (suppression), and glibc's ' and I
 ScanDirective(f, i) ==
   LET a == PosEnd(f, i + 1)
-      sup == At(f, a) = 42
-      b == IF sup THEN a + 1 ELSE a
-      c == SkipDigits(f, b)
+      b == SkipScanFlags(f, a)
+      sup == \E k \in a..(b - 1) : f[k] = 42
+      c0 == SkipDigits(f, b)
+      c == IF At(f, c0) = 109 THEN c0 + 1 ELSE c0               \* glibc / POSIX 2008: m, the result is allocated
       lm == LenMod(f, c)
       cv == At(f, lm[2])
       nx == IF cv = 91 THEN (LET s0 == lm[2] + 1
